@@ -18,6 +18,10 @@ let () = iter_lines (fun line ->
       | "and" -> pair (sc_uint128_bitwise_and a.(0) a.(1) a.(2) a.(3) z0 z0)
       | "ori" -> pair (sc_uint128_bitwise_or_inplace a.(0) a.(1) a.(2) a.(3))
       | "andi" -> pair (sc_uint128_bitwise_and_inplace a.(0) a.(1) a.(2) a.(3))
+      | "addia" -> pair (sc_uint128_add_inplace_aliased a.(0) a.(1))
+      | "subia" -> pair (sc_uint128_sub_inplace_aliased a.(0) a.(1))
+      | "oria" -> pair (sc_uint128_bitwise_or_inplace_aliased a.(0) a.(1))
+      | "andia" -> pair (sc_uint128_bitwise_and_inplace_aliased a.(0) a.(1))
       | "neg" -> pair (sc_uint128_bitwise_neg a.(0) a.(1) z0 z0)
       | "shr" -> pair (sc_uint128_shift_right a.(0) a.(1) a.(2) z0 z0)
       | "shl" -> pair (sc_uint128_shift_left a.(0) a.(1) a.(2) z0 z0)
